@@ -9,6 +9,7 @@ import (
 	"io"
 	"os"
 	"strings"
+	"syscall"
 
 	"github.com/BlackVectorOps/semantic_firewall/v3/internal/verifshim/crashfs"
 	"github.com/BlackVectorOps/semantic_firewall/v3/internal/verifshim/vrt"
@@ -17,6 +18,9 @@ import (
 
 // FS is the file system under test (nil = the real one).
 var FS *crashfs.FS
+
+// OtherDevice is the directory of the modelled file system that counts as a different device.
+const OtherDevice = "/otherfs"
 
 var tmpCounter int
 
@@ -55,18 +59,18 @@ const (
 )
 
 // Everything below is not part of the modelled save protocol and delegates to the real package.
-func IsExist(err error) bool                       { return os.IsExist(err) }
-func IsPermission(err error) bool                  { return os.IsPermission(err) }
-func Getwd() (string, error)                       { return os.Getwd() }
-func Getpid() int                                  { return os.Getpid() }
-func Hostname() (string, error)                    { return os.Hostname() }
-func TempDir() string                              { return os.TempDir() }
-func LookupEnv(k string) (string, bool)            { return os.LookupEnv(k) }
-func Environ() []string                            { return os.Environ() }
-func UserHomeDir() (string, error)                 { return os.UserHomeDir() }
-func Lstat(name string) (os.FileInfo, error)       { return Stat(name) }
-func SameFile(a, b os.FileInfo) bool               { return os.SameFile(a, b) }
-func Exit(code int)                                { os.Exit(code) }
+func IsExist(err error) bool                 { return os.IsExist(err) }
+func IsPermission(err error) bool            { return os.IsPermission(err) }
+func Getwd() (string, error)                 { return os.Getwd() }
+func Getpid() int                            { return os.Getpid() }
+func Hostname() (string, error)              { return os.Hostname() }
+func TempDir() string                        { return os.TempDir() }
+func LookupEnv(k string) (string, bool)      { return os.LookupEnv(k) }
+func Environ() []string                      { return os.Environ() }
+func UserHomeDir() (string, error)           { return os.UserHomeDir() }
+func Lstat(name string) (os.FileInfo, error) { return Stat(name) }
+func SameFile(a, b os.FileInfo) bool         { return os.SameFile(a, b) }
+func Exit(code int)                          { os.Exit(code) }
 func Chmod(name string, m os.FileMode) error {
 	if FS == nil {
 		return os.Chmod(name, m)
@@ -204,6 +208,11 @@ func Rename(o, n string) error {
 		return os.Rename(o, n)
 	}
 	vrt.Yield("os.Rename")
+	// everything below OtherDevice is another file system: a rename across the boundary fails as
+	// it does for real (EXDEV); code that falls back to copying shows what that copy does
+	if strings.HasPrefix(o, OtherDevice+"/") != strings.HasPrefix(n, OtherDevice+"/") {
+		return &os.LinkError{Op: "rename", Old: o, New: n, Err: syscall.EXDEV}
+	}
 	return FS.Rename(o, n)
 }
 
